@@ -10,6 +10,7 @@ use serde_json::{json, Value};
 use std::sync::{Arc, Mutex};
 use std::time::Duration;
 
+fn pem(n: &str) -> Vec<u8> { std::fs::read(format!("/verif/tls-data/{n}")).unwrap_or_else(|_| panic!("missing tls-data/{n}")) }
 struct Env { script: Vec<String>, pos: usize, consumed: Vec<String>, kills: Vec<Kill>, invocations: u64 }
 
 pub fn run(stim: &Value, rec: &Rec) {
@@ -20,6 +21,9 @@ pub fn run(stim: &Value, rec: &Rec) {
     let stim_opts: Vec<String> = stim["ep_opts"].as_array().map(|a| a.iter().filter_map(|x| x.as_str().map(|s| s.to_string())).collect()).unwrap_or_default();
     let stim_zero: Vec<u64> = stim["zero_calls"].as_array().map(|a| a.iter().filter_map(|x| x.as_u64()).collect()).unwrap_or_default();
     let stim_kinds: Vec<String> = stim["fail_kinds"].as_array().map(|a| a.iter().filter_map(|x| x.as_str().map(|s| s.to_string())).collect()).unwrap_or_default();
+    // stim.tls: the channel is an https one (the scripted connector's pipe is wrapped in TLS by tonic; the in-process server presents a
+    // certificate the client trusts)
+    let tls = stim["tls"].as_bool().unwrap_or(false);
     let env = Arc::new(Mutex::new(Env { script, pos: 0, consumed: vec![], kills: vec![], invocations: 0 }));
     let log = rec.clone();
     let hook_log = rec.clone();
@@ -46,7 +50,17 @@ pub fn run(stim: &Value, rec: &Rec) {
                     env.lock().unwrap().kills.push(c_io.kill_switch());
                     let svc = build_server(&server_stim, &log);
                     let incoming = tokio_stream::StreamExt::chain(tokio_stream::once(Ok::<_, std::io::Error>(s_io)), tokio_stream::pending());
-                    tokio::spawn(async move { let _ = tonic::transport::Server::builder().add_service(svc).serve_with_incoming(incoming).await; });
+                    tokio::spawn(async move {
+                        let mut b = tonic::transport::Server::builder();
+                        if tls { b = b.tls_config(tonic::transport::ServerTlsConfig::new().identity(tonic::transport::Identity::from_pem(pem("server.pem"), pem("server.key")))).expect("server tls"); }
+                        let _ = b.add_service(svc).serve_with_incoming(incoming).await;
+                    });
+                    Ok(hyper_util::rt::TokioIo::new(c_io))
+                } else if tls && fail_kinds.get((inv as usize) % fail_kinds.len().max(1)).map(|s| s.as_str()) == Some("handshake_eof") {
+                    // the dial succeeds and the peer goes away before the TLS handshake completes (a server that is restarting): still
+                    // an attempt that made no connection
+                    let (c_io, s_io, _d) = Shim::pair(65536, 65536, 65536, 0);
+                    drop(s_io);
                     Ok(hyper_util::rt::TokioIo::new(c_io))
                 } else {
                     // stim.fail_kinds: the io::ErrorKind of the n-th failed attempt (cycled); whatever the kind, no connection can be made
@@ -57,7 +71,8 @@ pub fn run(stim: &Value, rec: &Rec) {
                 }
             }
         });
-        let mut ep = tonic::transport::Endpoint::from_static("http://peer.test");
+        let mut ep = tonic::transport::Endpoint::from_static(if tls { "https://good.test" } else { "http://peer.test" });
+        if tls { ep = ep.tls_config(tonic::transport::ClientTlsConfig::new().ca_certificate(tonic::transport::Certificate::from_pem(pem("ca_a.pem"))).domain_name("good.test")).expect("client tls"); }
         // stim.connect_timeout: a connect timeout is configured (virtual time: it never fires, the scripted connector answers at once)
         if stim_ct { ep = ep.connect_timeout(Duration::from_secs(5)); }
         // stim.ep_opts: other endpoint options that add tower layers around the connection (they must not change what a call observes)
